@@ -87,11 +87,9 @@ def secondary(tier, n, seed=0):
     full = full + [dict(d, cat=True) for d in full if d["medium"] == "memory" and d["rowindex"] == "default" and not d["sparse"]]
     full = full + [dict(d, inf=True) for d in full if d["rowindex"] == "default" and d["valname"] == "value" and not d.get("cat")]
     if tier == "thorough":
-        # the complete product of the six basic axes + a rotating dozen of the categorical / infinite-value variants
-        base_n = len([d for d in full if not d.get("cat") and not d.get("inf")])
-        extra_v = full[base_n:]
-        k0 = (n * 5 + seed) % max(1, len(extra_v))
-        return full[:base_n] + [extra_v[(k0 + 7 * m) % len(extra_v)] for m in range(12)]
+        # sixteen members of the product per base layout (twice the quick number), over seven times as many dimension sets
+        k = (n * 7 + seed * 5) % len(full)
+        return [full[(k + 13 * m) % len(full)] for m in range(16)]
     # quick: three members of the full product per base layout, rotating so that every value of every axis
     # (and many pairs) occurs across the base layouts of a dimension set
     k = (n * 7 + seed * 5) % len(full)
